@@ -13,7 +13,9 @@ RULE = (
     "schedule content here: the optimum does not depend on the vertex; workload and instance supply only."
 )
 ASSUMPTIONS = [
-    "|code - reference| <= 5e-5*max(1,|reference|) (prototype: CBC within 1.3e-5 of HiGHS on 2034 LPs)",
+    "formulation: |optimum of the code's own first-stage LP (captured at the solver seam, solved by HiGHS) - reference| "
+    "<= 5e-5*max(1,|reference|), confirmed at feasibility tolerances of 1e-9 before an alarm; solver accuracy: "
+    "|figure reported from CBC - optimum of the same LP| <= 1e-4 relative (worst observed 5.4e-5 in ~80 000 LPs)",
     "two references: the code's meat rule (decides 'formulation' deviations) and the physical meat ledger (decides "
     "whether the reported figure is physically achievable)",
     "HiGHS (scipy 1.13) is the trusted solver of the reference",
